@@ -1,11 +1,12 @@
 """C10 - only one submitter at a time; stale state never overwrites newer state."""
 
 import ast
+import re
 
 from .. import AnalysisError
 from ..callgraph import LOCK_WRAPPERS
 from ..cfg import ALL_KINDS, NORMAL_KINDS, iter_own
-from ..lib import attr_stores, dominated_by, guard_forms, key_of, render, type_is
+from ..lib import bound_from, attr_stores, dominated_by, guard_forms, key_of, render, type_is
 from ..report import describe, rule
 from .common import PROMOTE_SITES, ROLE_SITES, report_role
 
@@ -115,6 +116,24 @@ def c10_2(ctx, r):
                     ok = "load_data(" in txt and (ctx.cg.site_of(fn, ud2[1]).constructs or "").endswith("ClusterConfig")
             r.check(ok, "the handle that is promoted was built from cluster_config.json loaded in this lock hold", key_of(fn, "promote fresh state"), s.loc,
                     "the object being promoted is not constructed from state loaded inside the same lock hold (stale submitter field may be tested)", chain=detail)
+    # a refused promotion writes nothing: besides the promotion itself (which writes only after taking the empty field) no
+    # call in _deserialize may reach a state write unless the promotion succeeded
+    pq = {ctx.ix.find_func("Cluster._promote_to_submitter").qual}
+    for s in ctx.cg.sites_in(fn):
+        if set(s.targets()) & pq:
+            # the promotion call itself must let the method persist (serialize stays at its default / True)
+            kw = {k.arg: ctx.src(k.value) for k in s.node.keywords}
+            r.check(kw.get("serialize", "True") == "True", "the promotion persists itself (inside the same test-and-set)", key_of(fn, "promotion not persisted by _promote_to_submitter"), s.loc,
+                    f"_promote_to_submitter is called with serialize={kw.get('serialize')}: the field is persisted elsewhere, outside the has_submitter() test")
+            continue
+        if "STATE_WRITE" in ctx.site_may(s):
+            for n in ctx.nodes_of(fn, s.node):
+                forms = guard_forms(ctx, fn, n, ALL_KINDS, kill=False)
+                okp = any(p and re.fullmatch(r"\w+", f) and bound_from(ctx, fn, ast.Name(id=f, ctx=ast.Load()), n, "Cluster._promote_to_submitter") for f, p in forms)
+                r.check(okp, "a state write in _deserialize happens only after a successful promotion", key_of(fn, "state written although promotion was refused"), s.loc,
+                        f"`{ctx.src(s.node)[:50]}` writes the cluster config whether or not this process was promoted: a refused try-submit-jobs (another node is submitter) bumps the config version, and the "
+                        "active submitter's next write fails with ConfigVersionMismatch under the lock - its round dies with the marker and the role in place, and no later round can run",
+                        "promotion fails while another holds the role (and the refused process changes nothing)")
     # the public entry passes _deserialize through the static wrapper
     pub = ctx.fn("Cluster.deserialize", "C10.2")
     ws = [s for s in ctx.cg.sites_in(pub) if s.via_wrapper and fn.qual in s.wrapped]
@@ -210,6 +229,11 @@ def c10_3(ctx, r):
                     if isinstance(a0, ast.Attribute) and a0.attr == attr and mode in modes:
                         return True
             return False
+        # the reader answers from the file alone: nothing of the handle's own (possibly stale) state may stand in for it
+        own = sorted({ctx.src(x) for x in iter_own(rf.node) if isinstance(x, ast.Attribute) and isinstance(x.value, ast.Name) and x.value.id == "self" and x.attr != attr})
+        r.check(not own, f"{reader} depends on the version file only", key_of(rf, f"version reader also reads {own}"), rf.loc(),
+                f"{reader} reads {own} besides self.{attr}: when the file cannot supply the number (e.g. left empty by a writer killed between truncate and write) the handle's own version is compared with itself, "
+                "so any out-of-date copy passes the check and overwrites newer state", "A process holding an out-of-date copy of the cluster state cannot write it")
         r.check(opens(rf, ("r",)) and opens(wf, ("w",)), f"{reader} reads and {writer} writes self.{attr}", key_of(rf, "version file agreement"), rf.loc(),
                 f"version reader/writer do not agree on self.{attr}")
         # the version written is the incremented in-memory one: increment precedes the version write
@@ -348,9 +372,14 @@ def c10_6(ctx, r):
     r.check(ok, "instance methods lock get_lock_file(config.path)", key_of(init, "instance lock file"), init.loc(), "Cluster.__init__ derives its lock file differently from the static entry: two processes use different locks",
             "At most one process at a time is promoted")
     st = ctx.fn("Cluster.do_action_under_lock", "C10.6")
-    ok = any(isinstance(n, ast.Assign) and ctx.src(n.targets[0]) == "lock_file" and ctx.src(n.value) == "Cluster.get_lock_file(path)" for n in iter_own(st.node))
     fw = [s for s in ctx.cg.sites_in(st) if s.calls_short(ctx.ix, "Cluster._do_action_under_lock_internal")]
-    r.check(ok and len(fw) == 1 and ctx.src(fw[0].node.args[0]) == "lock_file", "the static entry locks get_lock_file(path)", key_of(st, "static lock file"), st.loc(), "do_action_under_lock locks another file")
+    ok = False
+    if len(fw) == 1 and fw[0].node.args:
+        from ..lib import inlined
+
+        for n in ctx.nodes_of(st, fw[0].node):
+            ok = inlined(ctx, st, fw[0].node.args[0], n) == "Cluster.get_lock_file(path)"
+    r.check(ok and len(fw) == 1, "the static entry locks get_lock_file(path)", key_of(st, "static lock file"), st.loc(), "do_action_under_lock locks another file")
     iw = ctx.fn("Cluster._do_action_under_lock", "C10.6")
     fw = [s for s in ctx.cg.sites_in(iw) if s.calls_short(ctx.ix, "Cluster._do_action_under_lock_internal")]
     r.check(len(fw) == 1 and ctx.src(fw[0].node.args[0]) == "self._lock_file", "the instance entry locks self._lock_file", key_of(iw, "instance forward"), iw.loc(), "_do_action_under_lock locks another file")
